@@ -3,6 +3,7 @@ RETURN-VALUE half of C07 on top of contract-only declarations of everything they
 
   close_until(cond) -> r:   r  ==> cond returned true for exactly the state returned       (cond.ensures((&final(self),), true))
                             !r ==> is_dirty() returned false for exactly the state returned (!final(self).dirty_spec())
+                                   and cond returned false for exactly that state           (cond.ensures((&final(self),), false))
   close():                  ends in a state in which is_dirty() is false
 
 What the callees DO is not part of this unit: canonicalize, recompute_model_indices, move_new_to_old, ModelDelta::apply_* and the
@@ -26,20 +27,21 @@ HERE = os.path.dirname(os.path.abspath(__file__))
 
 ALLOW_TRUSTED_RX = gen.ALLOW_TRUSTED_RX + [r'^uninterp fn dirty_spec$', r'^assume_specification \[?std::mem::replace', r'^assume_specification core::mem::replace', r'^exec_allows_no_decreases_clause']
 
-DROPPED = ['everything except the model struct, ModelDelta, the rule environments, close_until and close',
+DROPPED = ['ModelDelta::apply_func_defs: real signature, body replaced, ASSUMED postcondition `not dirty afterwards => model unchanged`', 'everything except the model struct, ModelDelta, the rule environments, close_until and close',
            'the `unsafe extern "Rust"` block: each rule function `safe fn <rule>(env: <Rule>Env)` is replaced by a body-less declaration with the same signature and NO postcondition',
-           'canonicalize, recompute_model_indices, move_new_to_old, ModelDelta::{new, apply_equalities, apply_tuples, apply_func_defs}: real signatures, body replaced, NO postcondition (any effect allowed)',
+           'canonicalize, recompute_model_indices, move_new_to_old, ModelDelta::{new, apply_equalities, apply_tuples}: real signatures, body replaced, NO postcondition (any effect allowed)',
            'is_dirty: real signature, declared `ensures b == self.dirty_spec()` with dirty_spec uninterpreted (exact meaning proved in unit GEN)',
            '#[derive(Debug, Clone)] of ModelDelta, #[allow(..)] attributes']
 
 SAMPLES = [
-    'close_until(&mut self, condition) -> r: requires forall|m| condition.requires((m,)); ensures r ==> condition.ensures((&*final(self),), true), !r ==> !final(self).dirty_spec()   (no termination claim)',
+    'close_until(&mut self, condition) -> r: requires forall|m| condition.requires((m,)); ensures r ==> condition.ensures((&*final(self),), true), !r ==> !final(self).dirty_spec() && condition.ensures((&*final(self),), false)   (no termination claim)',
     'close(&mut self): ensures !final(self).dirty_spec()',
 ]
 
 ASSUMPTIONS = [
     'programs are sampled (the probe theories); states, conditions and histories are universal',
     'the callees of close_until are declared WITHOUT postcondition (sound over-approximation of their effect); is_dirty observes an uninterpreted dirty_spec whose meaning is established in unit GEN',
+    'ASSUMED contract of ModelDelta::apply_func_defs (a drain loop outside Verus): if the model is not dirty afterwards it is unchanged (define_<f> on a defined term touches nothing, on an undefined one it allocates an element, which makes the model dirty -- both proved for define_<f> in unit GEN)',
     'termination is not claimed (exec_allows_no_decreases_clause): close() may run forever by design',
     'a condition closure is a function of the model state (Verus models Fn calls as pure)',
 ]
@@ -90,14 +92,28 @@ def build(repo, canary=False, probes=None):
         # ModelDelta functions: contract-only, no postcondition
         md = src.item(r'impl ModelDelta\s*\{', name='ModelDelta')
         A.text(md.header(), 'impl ModelDelta header (from the emitted text)')
-        for fn in ('new', 'apply_equalities', 'apply_tuples', 'apply_func_defs'):
+        for fn in ('new', 'apply_equalities', 'apply_tuples'):
             A.text(declaration(src.fn(fn, within=md), None, ''), 'ModelDelta::%s declared without postcondition' % fn)
+        # ASSUMED (drain loop, outside Verus): applying pending function definitions either creates an element -- then the model is dirty --
+        # or finds every term defined and leaves the model as it was (define_<f> returns the existing value without touching anything: unit GEN)
+        A.text(declaration(src.fn('apply_func_defs', within=md), None, 'ensures !final(model).dirty_spec() ==> *final(model) == *old(model),'),
+               'ModelDelta::apply_func_defs: ASSUMED "not dirty afterwards => model unchanged"')
         A.text('}\n', 'impl close')
         A.text(m.impl.header(), 'impl header of the model (from the emitted text)')
         A.text('    /// what is_dirty() observes (exact meaning: unit GEN)\n    pub uninterp spec fn dirty_spec(&self) -> bool;\n', 'ghost')
         for fn in ('canonicalize', 'recompute_model_indices', 'move_new_to_old'):
             A.text(declaration(src.fn(fn, within=m.impl), None, ''), '%s declared without postcondition' % fn)
         A.text(declaration(src.fn('is_dirty', within=m.impl), 'b', 'ensures b == self.dirty_spec(),'), 'is_dirty declared as the observation of dirty_spec')
+        # the state the condition saw when it last returned false: the returned state itself, or -- when the model keeps unapplied conclusions in a
+        # ModelDelta field, which close_until empties before it applies them -- the returned state up to that field (no public query reads it)
+        dfs = getattr(m, 'delta_fields', [])
+        if dfs:
+            cond_false = 'exists|%s| condition.ensures((&final(self).with_pending(%s),), false)' % (
+                ', '.join('d%d: ModelDelta' % i for i in range(len(dfs))), ', '.join('d%d' % i for i in range(len(dfs))))
+            A.text('    /// the same model with other unapplied conclusions (the fields are private in the emitted text)\n    pub closed spec fn with_pending(&self, %s) -> Self { %s { %s, ..*self } }\n'
+                   % (', '.join('d%d: ModelDelta' % i for i in range(len(dfs))), m.name, ', '.join('%s: d%d' % (f, i) for i, f in enumerate(dfs))), 'ghost')
+        else:
+            cond_false = 'condition.ensures((&*final(self),), false)'
         cu = src.fn('close_until', within=m.impl, name='%s::%s::close_until' % (mod, m.name))
         cu.attr('#[verifier::spinoff_prover]')
         cu.attr('#[verifier::exec_allows_no_decreases_clause]')
@@ -106,8 +122,13 @@ def build(repo, canary=False, probes=None):
             // true only in a state in which the condition holds
             r ==> condition.ensures((&*final(self),), true),
             // false only in a state in which is_dirty() is false (nothing new, nothing uprooted, no pending empty-premise rule)
-            !r ==> !final(self).dirty_spec(),''', prelude=CAN.strip())
+            // and in which the condition does not hold
+            !r ==> !final(self).dirty_spec() && %s,''' % cond_false, prelude=CAN.strip())
         cu.loop(1, 'invariant forall|mm: &Self| #[trigger] condition.requires((mm,)),')
+        if dfs:
+            # witness for the exists: the unapplied conclusions the model held when the condition was evaluated
+            cu.before('if condition(self) {', 'let ghost at_cond = *self;', occ=2)
+            cu.before('return false;', 'proof { if self.with_pending(%s) == at_cond { } }' % ', '.join('at_cond.%s' % f for f in dfs))
         A.item(cu)
         cl = src.fn('close', within=m.impl, name='%s::%s::close' % (mod, m.name))
         cl.attr('#[verifier::spinoff_prover]')
